@@ -27,6 +27,7 @@ type op struct {
 	Where string `json:"where"` // M/flip: type | ver | len | first | mid | last
 	Pos   int    `json:"pos"`   // M/flip/mid: body offset = Pos mod body length
 	Mask  int    `json:"mask"`  // M/flip: xor mask 1..255
+	Pad   int    `json:"pad"`   // WP: zero bytes of record padding
 }
 
 type scenario struct {
@@ -381,6 +382,25 @@ func (se *session) doOp(o op) bool {
 			err = fmt.Errorf("harness: side %s is not a UConn", o.X)
 		}
 		se.emit(map[string]any{"ev": "Keystream", "x": o.X, "n": o.N, "ks": hlib.Ints(ks), "err": hlib.ErrStr(err)})
+	case "WP": // a padding peer (RFC 8446 5.4): one record, data followed by Pad zero bytes, through the verif method
+		w, ok := any(sd.conn).(interface {
+			VerifWritePaddedRecord(data []byte, pad int) error
+		})
+		if !ok {
+			se.emit(map[string]any{"ev": "NoPaddingHook", "x": o.X})
+			return false
+		}
+		data := se.streamBytes(o.X, sd.off, o.N)
+		head := data
+		if len(head) > 16 {
+			head = head[:16]
+		}
+		off := sd.off
+		err := w.VerifWritePaddedRecord(data, o.Pad)
+		if err == nil {
+			sd.off += o.N
+		}
+		se.emit(map[string]any{"ev": "WritePadded", "x": o.X, "n": o.N, "pad": o.Pad, "off": off, "head": hlib.Ints(head), "err": hlib.ErrStr(err)})
 	case "CW": // half-close: close_notify goes out, the side keeps reading
 		err := sd.conn.CloseWrite()
 		se.emit(map[string]any{"ev": "CloseWrite", "x": o.X, "err": hlib.ErrStr(err)})
